@@ -492,6 +492,8 @@ CORPUS = [
     # a connect segment without window-scale option once more than 60 KiB sit in a scaled receive buffer (fix 4e3dfae: was an assertion)
     ("k5 1048576:0:1:0:0:1:4294967295 262144:0:0:250:1:1:4294967295 cA N N N sB100:249 T1050 kA T1100 kA rB10 iAffffffff4a4b8764000000080000f016fe8b0b8703c22000b52016e7916f2f5e1f454613c2a260926970b520dac8bd330eb5b815e16357e1f345d7c0d1537c272b44e2a4135261e8c208e91b619c8dd0e690dfd49b76d5cb6188fdda5971ca6c27f63c2e rA0 U4 sB70000:249 N xB0 Q2 D2 U0 U3 T5100 kB D1 T9100 kA kB hA2 jA13:4~1000 Q2 X iAffffffffdccc4675b73f8e930003bce00dcb8b72b43fb85d0001 N", "corpus"),
     ("k6 1048576:0:1:0:0:1:7 0:0:1:100:1:1:7 cA N N N sB70000:5 Q3 iA0000000700000000000000000002100000000000000000000001 Q1 rA200000", "corpus"),
+    # LAST-ACK: clock notifications, then an ACK two past the send buffer (fix 228ddd4: a new FIN was queued on every notification)
+    ("k7 0:0:1:100:1:1:7 0:0:1:100:1:1:7 cA N N sA10:1 N rB10 hA1 N N hB1 T2000 kB T3000 kB iB0000000700000012000000090000f00000000bb800000000", "corpus"),
     # ACK of our FIN while in NewReno recovery
     ("k4 0:0:0:500:1:1:4294967295 0:0:1:1:0:1:4294967295 cA N N N T1101 kB kA rB100 sB1284:26 Q2 rA1000 X Q2 hB0 T1202 kA kB hA2 sA4543:26 sA1:26 hA1 D0 sB3000:26 U1 N sB4425:26 hB0 X rB0 rA65536 sB1:26 sA1:26 hB2 sB1:26 sB1284:26 T17202 kB kA T33202 kB kA sB2798:26 sB10:26 hB0 sB1284:26 hB2 Q2 N D5 hB2 rA10 N Q1 N X rA0", "corpus"),
 ]
